@@ -80,7 +80,11 @@ def gen_D(d: gen.D) -> str:
             parts.append(gen_defs(d).rstrip("\n"))
         else:
             parts.append(gen.block_doc_d(d, tabs=False, maxdepth=2, perturbed=False).rstrip("\n"))
-    return "\n\n".join(parts) + "\n"
+    doc = "\n\n".join(parts) + "\n"
+    if d.chance(0.04):
+        # an invisible format character as the first character of D: in the one-go form it is in the middle of the input
+        doc = d.pick(gen.FORMAT_PREFIXES) + doc
+    return doc
 
 
 @st.composite
